@@ -253,7 +253,7 @@ def do_same_content(proj: e3.Project, root: str, rewrites: list):
 
 
 def build_kw(item: dict) -> dict:
-    return {"resources": "tok:1", "njob": item.get("njob", 1)}
+    return {"resources": "tok:1", "njob": item.get("njob", 1), "timeout": item.get("timeout", 60)}
 
 
 def run_case(item: dict) -> dict:
@@ -288,7 +288,11 @@ def run_case(item: dict) -> dict:
             else:
                 _run_watch(item, rng, proj, history, root, kw, report, count, fail)
         except e3.E3Timeout as exc:
-            fail(f"oracle:{flavour}:timeout", f"{exc.args[0]} {exc.args[1] if len(exc.args) > 1 else ''}")
+            # not a verdict: the caller retries the case alone with a longer timeout
+            report["timeout"] = f"{exc.args[0]} {exc.args[1] if len(exc.args) > 1 else ''}"
+        except e3.E3Error as exc:
+            # the engine itself gave up (e.g. the watching director ended on its own): same handling
+            report["timeout"] = f"E3Error: {exc}"
     return report
 
 
